@@ -141,6 +141,24 @@ def run_order(spec, ctx):
         # precondition (so that nothing beyond the statement is demanded): on these very elements the language's <
         # must be a strict total order -- mixed kinds fall back to text order, which can be cyclic (10 < date < 3)
         lst = "[" + ", ".join(elems) + "]"
+        # whatever the order is, it does not depend on how the collection was written down: the same elements in another
+        # literal order are visited in the same sequence (checked even where `<` gives no total order on them)
+        if not pre_edit:
+            walk = "def seen = []; for x in %s{C} do append(seen, x) end; string(seen)" % kw
+            perm = list(elems)
+            r.shuffle(perm)
+            if kw:
+                c1 = "<<< " + ", ".join("%s => 1" % e for e in elems) + " >>>"
+                c2 = "<<< " + ", ".join("%s => 1" % e for e in perm) + " >>>"
+            else:
+                c1 = "<< " + ", ".join(elems) + " >>"
+                c2 = "<< " + ", ".join(perm) + " >>"
+            w1, _, _ = R.run_text(walk.replace("{C}", c1))
+            w2, _, _ = R.run_text(walk.replace("{C}", c2))
+            ctx.count("walk_order_vs_literal_order")
+            if w1[0] == "value" and w2[0] == "value" and w1 != w2:
+                ctx.violation("C04:enumeration-order:depends-on-literal-order:%s" % ("map-keys" if kw else "set"),
+                              "%s visits %s but %s visits %s" % (c1[:200], w1[1], c2[:200], w2[1]), {"c1": c1, "c2": c2})
         pre, _, _ = R.run_text("def l = unique(%s); [[a < b for b in l] for a in l]" % lst)
         if pre[0] != "value" or not strict_total(pre[1]):
             ctx.count("order_programs_skipped_no_total_order")
